@@ -59,6 +59,8 @@ for sid in sorted(confirm):
         "checks_run": prev,
         "detected_by": sorted(k for k, v in prev.items() if v["exit"] == 1),
     }
+    if old.get("note"):
+        out["note"] = old["note"]
     json.dump(out, open(os.path.join(d, "meta.json"), "w"), indent=1)
     print(sid, "->", out["detected_by"] or "NOT DETECTED", prev)
 
@@ -69,7 +71,7 @@ for sid in sorted(os.listdir(DST)):
     if not os.path.exists(mp):
         continue
     m = json.load(open(mp))
-    det = ", ".join(m.get("detected_by") or []) or "**not detected**"
+    det = ", ".join(m.get("detected_by") or []) or "**not detected** (see note in meta.json)"
     ran = ", ".join(f"{k}:{'VIOLATION' if v['exit']==1 else 'exit '+str(v['exit'])}" for k, v in sorted(m.get("checks_run", {}).items()))
     rows.append(f"| {sid} | {m.get('property')} | {(m.get('summary') or '').replace('|','/')[:160]} | {(m.get('needs') or '').replace('|','/')[:200]} | {det} | {ran} |")
 with open(os.path.join(DST, "README.md"), "w") as f:
